@@ -252,6 +252,8 @@ def run(ctx):
             ctx.counterexample('RAWCHARS: %r raised %s instead of SyntaxError' % (bad_, type(ex_).__name__), {'pattern': 'a' + bad_})
     ctx.counted('RAWCHARS escapes across the planes (surrogates, last plane)', nplanes, nplanes, [{'pattern': 'p\\U0010FFFDq.txt'}, {'pattern': 'a\\udce9.t?t'}])
     ctx.counted('RAWCHARS vs hand-decoded pattern', evals, len(nontriv), [{'pattern': 'a\\x7cb'}, {'pattern': cand[len(cand) // 2]}])
+    from props import glue
+    glue.rawchars_glue(ctx)
     return ctx.finish(RULE)
 
 
